@@ -472,7 +472,6 @@ static std::string run_ops(const std::string& script) {
   return res;
 }
 //C20}
-
 int main() {
   std::string line;
   std::cout << std::unitbuf;
